@@ -139,3 +139,52 @@ Qed.
 
 Lemma In_sort_nat l y : In y (sort_nat l) <-> In y l.
 Proof. unfold sort_nat. rewrite In_sort_nat_aux. cbn. intuition. Qed.
+
+(* ---- the scheduler functions never touch the farm fields ---- *)
+Definition same_farm (s s' : state) : Prop :=
+  cluster s' = cluster s /\ workers s' = workers s /\ jobs s' = jobs s /\ inflight s' = inflight s /\
+  archive s' = archive s /\ active s' = active s /\ paused s' = paused s /\ stored s' = stored s /\
+  busy s' = busy s.
+
+Lemma same_farm_refl s : same_farm s s.
+Proof. unfold same_farm. repeat split; reflexivity. Qed.
+
+Lemma same_farm_trans a b d : same_farm a b -> same_farm b d -> same_farm a d.
+Proof. unfold same_farm. intuition congruence. Qed.
+
+Lemma organize1_farm c r tg s x : same_farm s (organize1 c r tg s x).
+Proof.
+  unfold organize1. destruct (nnodes c <=? x); [apply same_farm_refl|].
+  unfold same_farm. cbn. repeat split; reflexivity.
+Qed.
+
+Lemma organize_fold_farm c r tg names : forall s, same_farm s (fold_left (organize1 c r tg) names s).
+Proof.
+  induction names as [|x names IH]; intros s; cbn [fold_left]; [apply same_farm_refl|].
+  eapply same_farm_trans; [apply organize1_farm | apply IH].
+Qed.
+
+Lemma organize_farm c names r tg s : same_farm s (organize c names r tg s).
+Proof.
+  unfold organize. eapply same_farm_trans; [apply organize_fold_farm|].
+  unfold same_farm. cbn. repeat split; reflexivity.
+Qed.
+
+Lemma complete_farm c x t s : same_farm s (complete c x t s).
+Proof.
+  unfold complete, same_farm. cbn zeta.
+  destruct (todo (getn (ns s) x)); destruct (if t =? ALL then [] else rem t (doing (getn (ns s) x)));
+  cbn; repeat split; reflexivity.
+Qed.
+
+Lemma purge_farm c x t s : same_farm s (purge c x t s).
+Proof. unfold purge, same_farm. cbn. repeat split; reflexivity. Qed.
+
+Lemma update_farm c vs x r s : same_farm s (update c vs x r s).
+Proof. unfold update. destruct vs; [apply same_farm_refl | apply organize_farm]. Qed.
+
+Lemma build_farm c ch s : same_farm s (build c ch s).
+Proof.
+  unfold build. eapply same_farm_trans; [|apply organize_farm].
+  unfold same_farm. cbn. repeat split; reflexivity.
+Qed.
